@@ -571,7 +571,7 @@ const ENUM_VALUE_NAMES: [&str; 2] = ["A", "extend"];
 const INPUT_FIELD_NAMES: [&str; 2] = ["a", "input"];
 const ARG_DEF_NAMES: [&str; 2] = ["a", "fragment"];
 pub const STRING_PLAIN: &str = "s";
-pub const STRING_WITH_NEWLINE: &str = "p\n q";
+pub const STRING_WITH_NEWLINE: &str = "p\n  \n q";
 
 fn opt(t: &Tree) -> Option<&Tree> {
     t.kids.first()
